@@ -68,14 +68,16 @@ D = {
   line='["setcallback", "_local_receive", "_local_close", "_no_longer_opened", "_finished_receiving", "receive"]',
   nontriv='lambda evs: sum(1 for e in evs if e["ev"] == "cb") >= 2',
   rule="setcallback placed before / between / after in-flight items and the peer's close (the schedule decides where relative to the receiver thread), endings by close, error, end of body and gateway exit, with and without endmarker, callback channels whose object was dropped, two callback channels at once",
-  ntext="non-trivial = the callback was invoked at least twice", known="None"),
+  ntext="non-trivial = the callback was invoked at least twice",
+  known='(lambda r, vd: "dropped-callback-channel-no-close" if vd == "C10.dropped-callback-channel-never-closed-by-the-peer" else None)'),
 "c18": dict(extra="",title="C18 -- channel ids never collide and channels travel over channels intact",
   cfgs='[("MCChanIds", "CI"), "GW_data"] if ctx.quick else [("MCChanIds", "CI"), ("MCChanIds", "CI_big"), "GW_data", "GW_data_big"]', mutants='[("MCChanIds", "CI_nolock")]',
-  fam="c18_programs(rng, 8 if ctx.quick else 60)", own='["C18.", "C02."]',
-  line='["new", "newchannel", "remote_exec", "load_channel", "_no_longer_opened", "close", "__init__"]',
+  fam="c18_programs(rng, 8 if ctx.quick else 60)", own='["C18.", "C02.", "C10.dropped-callback"]',
+  line='["new", "newchannel", "remote_exec", "load_channel", "_no_longer_opened", "close", "__init__", "setcallback", "_local_close"]',
   nontriv='lambda evs: sum(1 for e in evs if e["ev"] == "ret" and e["op"] in ("newchannel", "remote_exec")) >= 3',
   rule="concurrent newchannel/remote_exec calls from several threads on both sides; channels created on either side passed over channels (plain and nested in containers) and used; open/transfer/close/drop cycles with the channel table size compared before and after",
-  ntext="non-trivial = at least three channels were created", known="None"),
+  ntext="non-trivial = at least three channels were created",
+  known='(lambda r, vd: "dropped-callback-channel-no-close" if vd == "C10.dropped-callback-channel-never-closed-by-the-peer" else None)'),
 }
 for name, d in D.items():
     open(f"/verif/drivers/{name}.py", "w").write(T.format(num=int(name[1:]), **d))
